@@ -189,7 +189,10 @@ def run(chk, repo, tier):
     # ---------------------------------------------------------------- P3
     n3 = 0
     for cls, mod in ((tr, tm), (orr, om)):
-        for mname, f in cls.methods.items():
+        # the methods of the record class and the module-level functions of its module (helpers of the methods)
+        scope_ = list(cls.methods.items()) + [(g.name, g) for g in mod.functions.values()
+                                              if g.cls is None and g.parent is None]
+        for mname, f in scope_:
             node_vars = {n.targets[0].id for n in ast.walk(f.node) if isinstance(n, ast.Assign)
                          and isinstance(n.targets[0], ast.Name) and isinstance(n.value, ast.Call)
                          and isinstance(n.value.func, ast.Attribute) and n.value.func.attr in ('find', 'subtree', 'leaf')}
